@@ -590,7 +590,9 @@ def _text_cases(rng, n):
             out.append(('text', 'FIND', [needle, t]))             # start_num omitted
             out.append(('text', 'SEARCH', [needle, t]))
             out.append(('text', 'SUBSTITUTE', [t, needle, '+']))
-            for k in (1, 2, 3, 4):
+            for k in (0, 1, 2, 3, 4):
+                if k == 0 and not needle:
+                    continue        # which of the two rules (nothing to replace / no occurrence number 0) wins is not settled here
                 out.append(('text', 'SUBSTITUTE', [t, needle, '+', k]))
         out.append(('text', 'CONCATENATE', [t, 'x', t]))
         out.append(('text', 'CONCAT', [t, 'x', t]))
@@ -663,7 +665,7 @@ def _spec_agg(name, args):
     raise KeyError(name)
 
 
-AGGS = ['SUM', 'PRODUCT', 'SUMSQ', 'AVERAGE', 'MIN', 'MAX', 'COUNT', 'MEDIAN', 'STDEV', 'STDEVP', 'VAR', 'VARP', 'STDEV.S', 'VAR.P']
+AGGS = ['SUM', 'PRODUCT', 'SUMSQ', 'AVERAGE', 'MIN', 'MAX', 'COUNT', 'MEDIAN', 'STDEV', 'STDEVP', 'VAR', 'VARP', 'STDEV.S', 'VAR.P', 'STDEV.P', 'VAR.S']
 # numeric text inside ranges is not demanded (the statement names logicals and non-numeric text)
 CELLS = [1, 2, 2.5, -3, 0, 'txt', 'abc', True, False, sh.EMPTY, 10]
 
